@@ -174,15 +174,23 @@ def rule_construction(ctx):
                 if h is not None and renews(h.node, depth + 1):
                     return True
         return False
+    flushed_first = []
     for f_ in [om.node] + [x for x in ast.walk(om.node) if isinstance(x, (ast.FunctionDef, ast.AsyncFunctionDef)) and x is not om.node]:
         for st_ in walk_no_defs(f_):
             if isinstance(st_, ast.Assign) and any(is_self_attr(t_, "_session_id") for t_ in st_.targets) and not (isinstance(st_.value, ast.Constant) and st_.value.value is None):
                 joins.append((st_, renews(f_)))
+                gens = [x.lineno for x in walk_no_defs(f_) if isinstance(x, ast.Assign) and any(is_self_attr(t_, gen_attr) for t_ in x.targets)]
+                fails = [x.lineno for x in walk_no_defs(f_) if isinstance(x, ast.Call) and isinstance(x.func, ast.Attribute) and x.func.attr == "_errback_outstanding_requests"]
+                flushed_first.append((st_, bool(gens) and bool(fails) and min(fails) < min(gens)))
     ctx.ob("the session id of an established session is stored in onMessage", len(joins) >= 1, "store of the WELCOME session id not found", om.loc())
     for st_, fresh in joins:
         ctx.ob(f"a newly established session draws its request ids from a fresh IdGenerator (`{norm.text(st_)[:50]}`)", fresh,
                f"self.{gen_attr} is created once per session OBJECT only: after leave() and join() on the same object the new session continues with the ids of "
                f"the old one (first request id is not 1)", om.loc(st_))
+    for st_, okf in flushed_first:
+        ctx.ob("requests of an earlier session that are still pending are failed before the ids restart (they would meet the ids of the new session)", okf,
+               "the id generator is renewed while requests of the previous session on this object may still sit in the pending tables (its onLeave need not have "
+               "failed them): request 1 of the new session replaces request 1 of the old one, whose pending result is lost for good", om.loc(st_))
 
 
 def rule_dispatch(ctx):
@@ -197,7 +205,26 @@ def rule_dispatch(ctx):
             if n.ast is not None and not isinstance(n.ast, (ast.FunctionDef,)):
                 used |= set(table_uses(n.ast)) if n.kind != "handler" else set()
         ctx.ob(f"{arm}: only consults {table}", used == {table}, f"arm touches {sorted(used)}", om.fn.loc(nodes[0].ast))
-        look = [n for n in nodes if n.kind == "test" and ("in", "msg.request", ("e", f"self.{table}"), True) in norm.atoms(n.ast, True, res)]
+        # the lookup: `msg.request in table`, or `r is not None` for r = table.get(msg.request) / table.pop(msg.request, None)
+        from .common import local_canon
+        cn_ = local_canon(om.fn)
+
+        def is_lookup(n_):
+            at_ = norm.atoms(n_.ast, True, res)
+            if ("in", "msg.request", ("e", f"self.{table}"), True) in at_:
+                return True
+            forms = (f"self.{table}.get(msg.request)", f"self.{table}.get(msg.request,None)", f"self.{table}.pop(msg.request,None)")
+            for f_ in at_:
+                if f_[0] == "is" and f_[2] == ("c", None) and f_[3] is False:
+                    if f_[1] in cn_ and (norm.text(cn_[f_[1]]) or "").replace(" ", "") in forms:
+                        return True
+                    # a name re-used by several arms: the assignment of this arm that dominates the test
+                    defs_ = [m_ for m_ in nodes if m_.kind == "stmt" and isinstance(m_.ast, ast.Assign) and len(m_.ast.targets) == 1 and norm.text(m_.ast.targets[0]) == f_[1]
+                             and (norm.text(m_.ast.value) or "").replace(" ", "") in forms]
+                    if any(g.always_preceded_by(n_, lambda x, _d=d_: x is _d) for d_ in defs_):
+                        return True
+            return False
+        look = [n for n in nodes if n.kind == "test" and is_lookup(n)]
         ctx.ob(f"{arm}: looks up msg.request in {table}", len(look) == 1, "lookup test changed", om.fn.loc(nodes[0].ast))
         if look:
             # the path on which the id is unknown ends in ProtocolError
@@ -212,7 +239,9 @@ def rule_dispatch(ctx):
     for n in nodes:
         if n.kind == "test":
             at = norm.atoms(n.ast, True, res)
-            kinds = [f[2][1] for f in at if f[0] == "eq" and f[1] == "msg.request_type" and f[2][0] == "c"]
+            # the request kind may be tested in the same condition or in an enclosing one (`if kind == K and id in T` == `if kind == K: if id in T`)
+            known = list(at) + [f for f in (mf.at(n) or ()) if len(f) > 3 and f[3]]
+            kinds = [f[2][1] for f in known if f[0] == "eq" and f[1] == "msg.request_type" and f[2][0] == "c" and f[3]]
             tabs = [f[2][1] for f in at if f[0] == "in" and f[1] == "msg.request" and f[3]]
             if kinds and tabs:
                 pairs[kinds[0]] = (tabs[0], n)
@@ -272,12 +301,15 @@ def rule_remove_then_complete(ctx):
         nodes = om.arm_nodes(arm)
         completes = [(n, c) for n in nodes for c in node_calls(n) if call_name(c) in ("txaio.resolve", "txaio.reject")]
         ctx.ob(f"{arm}: completes the pending result", bool(completes), "no resolve/reject in the arm", om.fn.loc())
-        removes = [n for n in nodes if n.kind == "stmt" and ((isinstance(n.ast, ast.Assign) and f"self.{table}.pop(msg.request)" in norm.text(n.ast.value)) or
+        removes = [n for n in nodes if n.kind == "stmt" and ((isinstance(n.ast, ast.Assign) and f"self.{table}.pop(msg.request" in norm.text(n.ast.value)) or
                                                              (isinstance(n.ast, ast.Delete) and norm.text(n.ast.targets[0]) == f"self.{table}[msg.request]"))]
-        ctx.ob(f"{arm}: removes the record", len(removes) == 1, f"{len(removes)} removal sites", om.fn.loc())
+        plain = arm != "Result"   # the five plain arms are decided on cells (C04.8: resolved once and removed / left alone and removed / protocol violation)
+        if not plain:
+            ctx.ob(f"{arm}: removes the record", len(removes) == 1, f"{len(removes)} removal sites", om.fn.loc())
         for n, c in completes:
-            ctx.ob(f"{arm}: `{stmt_key(c)[:50]}` happens after the record was removed", bool(removes) and g.always_preceded_by(n, lambda x: x in removes),
-                   "pending result completed while its record is still in the table (a duplicate reply would complete it again)", om.fn.loc(c))
+            if not plain:
+                ctx.ob(f"{arm}: `{stmt_key(c)[:50]}` happens after the record was removed", bool(removes) and g.always_preceded_by(n, lambda x: x in removes),
+                       "pending result completed while its record is still in the table (a duplicate reply would complete it again)", om.fn.loc(c))
             tgt = norm.text(c.args[0])
             ctx.ob(f"{arm}: `{stmt_key(c)[:50]}` completes this request's own pending result", tgt in ("on_reply", "request.on_reply", "publish_request.on_reply"),
                    f"completes {tgt}", om.fn.loc(c))
@@ -315,8 +347,85 @@ def rule_remove_then_complete(ctx):
     HANDLER = canon_text(om.fn, ast.parse("call_request.options.on_progress", mode="eval").body, _cn)
     cb = [(n, c) for n in prog for c in node_calls(n) if call_name(c) == "txaio.as_future" and c.args and canon_text(om.fn, c.args[0], _cn) == HANDLER]
     ctx.ob("RESULT progress: delivered to the on_progress handler of the call with this request id", len(cb) == 2 and
-           any(norm.text(s.ast.value) == "self._call_reqs[msg.request]" for s in nodes if s.kind == "stmt" and isinstance(s.ast, ast.Assign) and norm.text(s.ast.targets[0]) == "call_request"),
+           any((norm.text(s.ast.value) or "").replace(" ", "") in ("self._call_reqs[msg.request]", "self._call_reqs.get(msg.request)", "self._call_reqs.get(msg.request,None)")
+               for s in nodes if s.kind == "stmt" and isinstance(s.ast, ast.Assign) and norm.text(s.ast.targets[0]) == "call_request"),
            "progress delivery changed", om.fn.loc())
+
+
+def rule_reply_cells(ctx):
+    """The five plain reply arms of onMessage (PUBLISHED, SUBSCRIBED, UNSUBSCRIBED, REGISTERED, UNREGISTERED), evaluated (sa.core.tiny) on the
+    states of the pending tables: how the arm looks the request up (`in` + pop, pop with default, get ...) does not matter, what happens does."""
+    from ..core.tiny import Tiny, Sym, OpenSym
+    from .common import inline_private
+    from .c11 import _arm_body
+    ctx.rule("C04.8-reply-arm-cells")
+    om = get_onmessage(ctx)
+    inl = inline_private(ctx, ctx.program.cls(APPSESSION))
+    arms = [a for a in REPLY_TABLE if a != "Result"]
+    n = 0
+    for arm in arms:
+        table = REPLY_TABLE[arm]
+        body = _arm_body(om, arm)
+        probs = []
+        try:
+            for what, present, called, elsewhere in (("a pending request with this id", True, False, False), ("the request's result already completed (cancelled)", True, True, False),
+                                                     ("no request with this id", False, False, False), ("the id pending only as another kind of request", False, False, True)):
+                fut = Sym("pending-result")
+                rec = OpenSym("request-record", on_reply=fut, request_id=7)
+                other_rec = OpenSym("other-record", on_reply=Sym("other-result"), request_id=7)
+                tabs = {t_: {} for t_ in ALL_TABLES}
+                if present:
+                    tabs[table][7] = rec
+                tabs[table][8] = OpenSym("unrelated-record", on_reply=Sym("unrelated-result"))
+                if elsewhere:
+                    for t_ in ALL_TABLES:
+                        if t_ != table:
+                            tabs[t_][7] = other_rec
+                done = []
+
+                def default(f_, a_, k_=None):
+                    if f_ in ("txaio.resolve", "txaio.reject") and a_:
+                        done.append((f_.split(".")[1], a_[0]))
+                        return None
+                    if f_ == "txaio.is_future":
+                        return True
+                    if f_ == "txaio.is_called":
+                        return called and a_ and a_[0] is fut
+                    if f_ == "isinstance":
+                        return True
+                    return Sym(f"<{f_}>")
+                env = {"self": Sym("session"), "msg": OpenSym("message", request=7, subscription=55, registration=66, publication=9, reason=None),
+                       "self._subscriptions": {}, "self._registrations": {}, "self.log": Sym("log"), "self._session_id": 1}
+                env.update({f"self.{t_}": tabs[t_] for t_ in ALL_TABLES})
+                t = Tiny(env, default_call=default, inline_self=inl, opaque_globals=True, model_strings=True)
+                r = t.run(body)
+                n += 1
+                cell = f"{arm} for request 7 with {what}"
+                mine = [d for d in done if d[1] is fut]
+                foreign = [d for d in done if d[1] is not fut]
+                left = 7 in t.env[f"self.{table}"]
+                if foreign:
+                    probs.append(f"{cell}: completes a result that is not this request's ({foreign[0][1]})")
+                elif present and not called:
+                    if r[0] == "raise" or len(mine) != 1 or mine[0][0] != "resolve" or left:
+                        probs.append(f"{cell}: {r[0] if r[0] == 'raise' else ''} result completed {len(mine)} time(s), record {'still in' if left else 'removed from'} {table}; "
+                                     f"expected resolved once and the record removed")
+                elif present and called:
+                    if r[0] == "raise" or mine or left:
+                        probs.append(f"{cell}: {'raises' if r[0] == 'raise' else ''} completed {len(mine)} time(s), record {'still in' if left else 'removed from'} {table}; "
+                                     f"expected nothing completed and the record removed")
+                else:
+                    perr = r[0] == "raise" and "ProtocolError" in str(r[1])
+                    untouched = all(len(t.env[f"self.{t_}"]) == len(tabs[t_]) for t_ in ALL_TABLES) and 8 in t.env[f"self.{table}"]
+                    if not perr or done or not untouched:
+                        probs.append(f"{cell}: {r[0]} {str(r[1])[:40]}, {len(done)} completion(s), tables {'untouched' if untouched else 'changed'}; expected ProtocolError and nothing else")
+                if 8 not in t.env[f"self.{table}"]:
+                    probs.append(f"{cell}: an unrelated pending request was removed")
+        except AnalysisError as e:
+            raise AnalysisError(f"[C04.8-reply-arm-cells] onMessage {arm} arm outside the modelled subset: {e}")
+        ctx.ob(f"{arm}: a reply retires exactly its own request (resolved once, or left alone if already completed) and an unmatched reply is a protocol violation [4 cells]",
+               not probs, "; ".join(probs[:2]), om.fn.loc(body[0]))
+    ctx.require(n >= 20, f"only {n} cells")
 
 
 def rule_optional_payload(ctx):
@@ -436,7 +545,7 @@ def _options_cells(ctx, oc, c, fn):
     from .c03 import falsy_admissible
     init = c.methods.get("__init__")
     if init is None:
-        return
+        return set()
     attrs = sorted({x.attr for x in ast.walk(init.node) if is_self_attr(x) and isinstance(x.ctx, ast.Store)})
     body = [s_ for s_ in fn.node.body if not (isinstance(s_, ast.Expr) and isinstance(s_.value, ast.Constant))]
     reps = {"bool": (False, True), "int": (0, 5), "str": ("", "x"), "float": (0.0, 1.5)}
@@ -481,6 +590,7 @@ def _options_cells(ctx, oc, c, fn):
         wrong.append(f"message_attr {r[0]} {str(r[1])[:60]}")
     ctx.ob(f"{oc}: with every option given, each key on the wire carries the value of the option of the same name [1 cell, {len(attrs)} options]", not wrong,
            "; ".join(wrong[:3]), fn.loc())
+    return set(r[1]) if r[0] == "return" and isinstance(r[1], dict) else set()
 
 
 def rule_options(ctx):
@@ -515,11 +625,20 @@ def rule_options(ctx):
                                    f"{oc}({at}=<falsy>) is sent without '{k}', so the router applies its default instead of the caller's choice", fn.loc(n.ast))
                     if k != "receive_progress":
                         ctx.ob(f"{oc}: option '{k}' emitted from the attribute of the same name", k in attrs, f"'{k}' written from self.{attrs}", fn.loc(n.ast))
-        ctx.ob(f"{oc}: emits options", n_keys >= 3, f"{n_keys} keys", fn.loc())
-        _options_cells(ctx, oc, c, fn)
+        emitted = _options_cells(ctx, oc, c, fn)
+        # the keys are those of the dict returned with every option given (however the dict is built: stores, literal, comprehension over a table)
+        ctx.ob(f"{oc}: emits options", len(emitted) >= 3, f"{len(emitted)} keys", fn.loc())
+        for k in sorted(emitted):
+            if n_keys == 0:
+                ctx.ob(f"{oc}: option '{k}' is a parameter of message.{mc}", k in params, f"message.{mc}(**options.message_attr()) would raise TypeError for '{k}'", fn.loc())
 
 
 def run(ctx):
+    # "a reply that matches no pending request is a protocol violation" also after the session ended: the tables are emptied when the
+    # outstanding requests are failed (rule shared with C06.3)
+    from .c06 import rule_pending_tables
+    rule_pending_tables(ctx, "C04.9-tables-emptied-at-session-end")
+    rule_reply_cells(ctx)
     rule_construction(ctx)
     rule_dispatch(ctx)
     rule_remove_then_complete(ctx)
